@@ -144,7 +144,8 @@ def lex(eng, text):
 
 def tok_json(eng, t):
     if t.type in KIND:
-        return {'k': KIND[t.type], 'v': val_json(t.value), 'p': t.lexpos}
+        carries = t.type in ('KEYWORD_STRING', 'QUOTED_STRING', 'NUMBER', 'FUNC', 'DOLLAR')
+        return {'k': KIND[t.type], 'v': val_json(t.value) if carries else None, 'p': t.lexpos}
     if t.type in ('(', ')', ']', ',', '}'):
         return {'k': 'lit', 's': t.type, 'p': t.lexpos}
     return {'k': 'op', 's': eng.name2sym[t.type], 'p': t.lexpos}
@@ -222,6 +223,7 @@ def real_parse(eng, text):
 
 # ---------------------------------------------------------------- the oracle: WF on the real tree
 
+KNOWN_SUFFIX_KEY = 'suffix-binary-symbol'
 CALL_LEVEL = 10 ** 9        # '(' of a delegate call: looser than every operator
 
 
@@ -233,9 +235,17 @@ class Oracle:
     """Transcription of `Yaql.Props.C02.WF` with (group number, declared associativity) in place of
     ply's (level, row associativity): smaller group = tighter."""
 
-    def __init__(self, eng):
+    def __init__(self, eng, token_level_suffix=False):
         self.eng = eng
         self.t = eng.table
+        # False: the statement (a suffix operator binds as its own group says).  True: what one ply token can
+        # do - a symbol that is also binary has ONE shift precedence, that of its binary group.
+        self.token_level_suffix = token_level_suffix
+
+    def suffix_group(self, sym):
+        if self.token_level_suffix and self.t[sym][1]:
+            return self.bin_group(sym)
+        return self.un_group(sym)
 
     def is_prefix(self, sym):
         return self.t[sym][0] > 0
@@ -271,7 +281,7 @@ class Oracle:
         if e[0] == 'bin':
             return [self.bin_group(e[1])] + self.left_post(e[3])
         if e[0] == 'un' and not self.is_prefix(e[1]):
-            return [self.un_group(e[1])] + self.left_post(e[3])
+            return [self.suffix_group(e[1])] + self.left_post(e[3])
         if e[0] == 'index':
             return [abs(self.t['[]'][1])] + self.left_post(e[1])
         if e[0] == 'call':
@@ -321,8 +331,7 @@ class Oracle:
             g = self.un_group(sym)
             if self.is_prefix(sym):
                 return self.value(e[3]) or self.check_right(e[3], g, 'prefix %r' % sym)
-            tok_g = self.bin_group(sym) if self.t[sym][1] else g
-            return self.value(e[3]) or self.check_left(e[3], tok_g, 'suffix %r' % sym)
+            return self.value(e[3]) or self.check_left(e[3], self.suffix_group(sym), 'suffix %r' % sym)
         if k == 'index':
             return (self.value(e[1]) or self.check_left(e[1], abs(self.t['[]'][1]), 'indexer') or
                     self.args(e[2:]))
@@ -641,12 +650,23 @@ class Batch:
             except NotApplicable:
                 why = None
             if why:
-                self.fail('oracle', 'tree-against-table', text, 'real tree %s: %s' % (json.dumps(real[1]), why))
+                key = 'tree-against-table'
+                if eng.ambiguous:
+                    try:
+                        if Oracle(eng, token_level_suffix=True).value(real[1]) is None:
+                            key = KNOWN_SUFFIX_KEY
+                    except NotApplicable:
+                        pass
+                self.fail('oracle', key, text, 'real tree %s: %s' % (json.dumps(real[1]), why))
         self.pending.append((text, tj, real))
         if len(self.pending) >= 4000:
             self.flush()
 
     def fail(self, kind, key, text, what):
+        if key == KNOWN_SUFFIX_KEY:
+            if getattr(self.res, 'suffix_binary_reported', False):
+                return
+            self.res.suffix_binary_reported = True
         self.res.fail(kind, key, '[%s] %r: %s' % (self.eng.label(), text, what),
                       dict(kind=self.eng.kind, delegates=self.eng.delegates, inserts=self.eng.inserts, text=text))
 
@@ -850,9 +870,20 @@ def run(env, res):
                 for text in pair_texts(e, ns, other):
                     b.add(text, 'custom_pairs')
         finish_batch(b)
-        if len(res.failures) >= 8:
+        if len([f for f in res.failures if f.key != KNOWN_SUFFIX_KEY]) >= 8:
             break
     hist['custom_tables_built'] = built
+
+    # 4. a fixed probe: a suffix operator that shares its symbol with a binary operator
+    probe = Eng('default', False, [dict(ex='->', bin=True, sym='*', ty=OT.SUFFIX_UNARY, cg=True, alias=None)])
+    check_table(probe, drv, res)
+    b = Batch(probe, drv, res, hist)
+    for text in ['1 + 2 *', '1 . a *', '1 * * 2', '1 * - 2', '1 * -2 * 3', '1 -> 2 *', '$a * [ 1 ]', '$a * [ 1 ] * 2',
+                 '- 1 *', 'not 1 *', '1 * ( 2 )', '1 * )', '( 1 * )', 'f( 1 * , 2 * => 3 * )']:
+        b.add(text, 'suffix_binary_probe')
+    for _ in range(300):
+        b.add(rand_flat(rng, probe, 6), 'suffix_binary_probe')
+    finish_batch(b)
 
     # shrink what failed
     shrunk = []
